@@ -73,7 +73,7 @@ func debugRun(args []string) {
 	if u := os.Getenv("GOSMT_UNWIND"); u != "" {
 		unw, _ = strconv.Atoi(u)
 	}
-	x := sx.NewExec(prog.Prog, sx.Config{Progress: 500, Trace: os.Getenv("GOSMT_TRACE") != "", InitPkgs: []string{sx.ModPath + "/pkg/" + pkg},
+	x := sx.NewExec(prog.Prog, sx.Config{Progress: 500, Trace: os.Getenv("GOSMT_TRACE") != "", InitPkgs: []string{sx.VrfPkg, sx.ModPath + "/pkg/" + pkg},
 		StubPkgs: stubPkgs, MaxUnwind: unw})
 	x.InstallRedirects(prog)
 	var vals []sx.Value
